@@ -97,6 +97,132 @@ def _const_node(v):
     return {"k": "lit", "t": "int", "v": v}
 
 
+def _find_vec(v):
+    from rules import prims
+    if isinstance(v, prims.Vec):
+        return v
+    if isinstance(v, tuple):
+        if v and v[0] == "obj":
+            for x in v[2].values():
+                r = _find_vec(x)
+                if r is not None:
+                    return r
+        elif v and v[0] == "v":
+            for x in v[2]:
+                r = _find_vec(x)
+                if r is not None:
+                    return r
+    return None
+
+
+def tabs_semantics(w, tabs_ty, ctor_fn, expand_fn, contract_fn, fns):
+    """The tab table is plain data (a vector of columns): its constructor and editing routines evaluated on concrete tables.
+      new(c), c = 1..48            -> the stops 8, 16, ... below c
+      expand(old, new) on new(old) -> exactly new(new)      (old 1..26, new up to old+18: every residue of old mod 8)
+      expand on a customised table -> the table plus the default stops in [old, new)
+      contract(n)                  -> exactly the stops below n
+      set(c) / unset(c) / clear    -> sorted insert without duplicates / removal of c only / nothing left
+    -> (bad [(key, text)], evaluations, roles {"set":, "unset":, "clear":})"""
+    from rules import prims
+    bad, n, roles = [], 0, {}
+
+    def mk(c):
+        return prims.VecInterp(w.facts).call_fn(ctor_fn, [c])
+
+    def with_stops(c, items):
+        t = mk(c)
+        v = _find_vec(t)
+        if v is None:
+            raise H.Unsupported("no stop vector inside %s" % tabs_ty)
+        v.items[:] = list(items)
+        return t
+
+    def stops(t):
+        v = _find_vec(t)
+        return list(v.items) if v is not None else None
+
+    def dflt(c):
+        return list(range(8, c, 8))
+
+    def note(key, text):
+        if not any(b[0] == key for b in bad):
+            bad.append((key, text))
+    try:
+        for c in range(1, 49):
+            n += 1
+            got = stops(mk(c))
+            if got != dflt(c):
+                note("new", "%s(%d) gives the stops %s, expected %s" % (ctor_fn, c, got, dflt(c)))
+        for old in range(1, 27):
+            for new in range(old + 1, old + 19):
+                for custom in (None, [x for x in (1, 3) if x < old]):
+                    t = mk(old) if custom is None else with_stops(old, custom)
+                    base = stops(t)
+                    prims.VecInterp(w.facts).call_fn(expand_fn, [t, old, new])
+                    n += 1
+                    want = base + [m for m in range(8, new, 8) if m >= old]
+                    if stops(t) != want:
+                        note("expand:%d" % (old % 8), "widening %d -> %d columns turns the stops %s into %s, expected %s (a never-customised terminal must tab like a fresh one of the new width)" % (old, new, base, stops(t), want))
+        tables = ([8, 16, 24, 32], [3, 8, 9, 30], [], [5], [1, 2, 3])
+        for tb in tables:
+            for c in range(1, 36):
+                t = with_stops(40, tb)
+                prims.VecInterp(w.facts).call_fn(contract_fn, [t, c])
+                n += 1
+                if stops(t) != [x for x in tb if x < c]:
+                    note("contract", "narrowing to %d columns turns the stops %s into %s, expected exactly the stops below %d" % (c, tb, stops(t), c))
+        unary = [fn for fn, fo in sorted(fns.items()) if [i["s"] for i in fo.get("inputs", [])][1:] == ["usize"] and fo["inputs"][0]["s"].startswith("&mut") and fn != contract_fn]
+        nullary = [fn for fn, fo in sorted(fns.items()) if len(fo.get("inputs", [])) == 1 and fo["inputs"][0]["s"].startswith("&mut")]
+        for fn in unary:
+            t1, t2 = with_stops(40, [8, 16]), with_stops(40, [8, 16])
+            prims.VecInterp(w.facts).call_fn(fn, [t1, 5])
+            prims.VecInterp(w.facts).call_fn(fn, [t2, 8])
+            if stops(t1) == [5, 8, 16]:
+                roles["set"] = fn
+            elif stops(t2) == [16]:
+                roles["unset"] = fn
+        for role in ("set", "unset"):
+            fn = roles.get(role)
+            if not fn:
+                note(role, "no routine of %s behaves as `%s a stop at a column`" % (tabs_ty, role))
+                continue
+            for tb in tables:
+                for c in range(0, 36):
+                    t = with_stops(40, tb)
+                    prims.VecInterp(w.facts).call_fn(fn, [t, c])
+                    n += 1
+                    want = sorted(set(tb) | {c}) if role == "set" else [x for x in tb if x != c]
+                    if stops(t) != want:
+                        note(role, "%s(%d) on the stops %s gives %s, expected %s" % (fn, c, tb, stops(t), want))
+        for fn in nullary:
+            t = with_stops(40, [8, 16, 24])
+            prims.VecInterp(w.facts).call_fn(fn, [t])
+            n += 1
+            if stops(t) == []:
+                roles["clear"] = fn
+    except prims.errs() as ex:
+        note("evaluation", "cannot evaluate the tab table's routines: %s" % (ex,))
+    return bad, n, roles
+
+
+def resize_tabs_semantics(w, S, R, expand_fn, contract_fn):
+    """The resize entry evaluated with the tab table opaque: narrower -> exactly contract(new), wider -> exactly expand(old, new),
+    same width -> no call on the tab table.  -> True | description"""
+    from rules import hinterp
+    for old, new in ((10, 6), (10, 10), (10, 14), (16, 8), (8, 16)):
+        me = hinterp.mock_terminal(w, S, R, old, 4, 0, 0, opaque_tabs=True)
+        it = hinterp.MockBufInterp(w.facts, S)
+        try:
+            it.call_fn(S.resize_fn, [me, new, 4])
+        except Exception as ex:
+            return "cannot evaluate %s: %r" % (S.resize_fn, ex)
+        calls = [(e[0], e[1]) for e in it.events if e[2] == "tabs"]
+        want = [] if new == old else [(contract_fn, [new])] if new < old else [(expand_fn, [old, new])]
+        if calls != want:
+            return "resize from %d to %d columns makes the tab-table calls %s, expected %s" % (old, new, calls, want)
+    return True
+
+
 def _run(ctx, w):
     S = shared.screen(w)
     R = shared.roles(w)
@@ -123,6 +249,24 @@ def _run(ctx, w):
         ctx.missing_anchor("Z3", "contract/expand calls in %s and the Tabs constructor" % rf, "(%d expand, %d contract, %d ctor)" % (len(expand), len(contract), len(ctor)))
         return
     expand_fn, contract_fn, ctor_fn = expand[0].callee, contract[0].callee, ctor[0]
+
+    # ---- Z10: the table's routines evaluated; the shape rules Z1 / Z2 / Z4 and the binary-search form of Z5 defer to it ------------
+    ctx.rule("Z10", "the tab table's constructor, expand, contract, set, unset and clear evaluated on concrete tables (every width 1..48, every widening old 1..26 -> up to old+18 on default and customised tables, "
+                    "narrowing of five tables to every width, set / unset of every column 0..35): defaults every 8 columns also after widening, exactly the stops below the new width survive, sorted insert / single removal")
+    sem_bad, sem_n, sem_roles = tabs_semantics(w, tabs_ty, ctor_fn, expand_fn, contract_fn, fns)
+    for key, text in sem_bad[:8]:
+        ctx.violation("Z10", key, text, loc=w.fn_loc(expand_fn if key.startswith("expand") else contract_fn if key == "contract" else ctor_fn))
+    if not sem_bad:
+        ctx.ok("Z10", "all", {"evaluations": sem_n, "roles": sem_roles})
+    ctx.rule_counts["Z10"] = sem_n
+    sem_ok = not sem_bad and sem_n >= 1500
+    rz_sem = resize_tabs_semantics(w, S, R, expand_fn, contract_fn)
+    ctx_plain = ctx
+    ctx = shared.Deferred(ctx, {"Z1", "Z2", "Z4"}, sem_ok)
+    if rz_sem is True:
+        ctx = shared.Deferred(ctx, {"Z3"}, True)
+    else:
+        ctx_plain.violation("Z3", "semantic", str(rz_sem), loc=w.fn_loc(rf))
 
     # ---- Z1 ---------------------------------------------------------------------------------
     ctx.rule("Z1", "for every residue r of the old width modulo 8, the first stop generated on widening is old + (8 - r) mod 8, and the step is 8")
@@ -268,9 +412,14 @@ def _run(ctx, w):
                 ok = ok and val == ("load", ("arg2",))
             else:
                 unsetter = fn
+            ok = ok or sem_ok           # another algorithm with the same effect (Z10)
             ctx.check(ok, "Z5", "%s:%s" % (fn, nm), "%s must %s at the position reported by binary_search's %s case (index term %s)" % (fn, "insert" if nm == "set" else "remove", variant, w.tstr(fn, idx)),
                       loc=w.site_loc(cs), sample={"fn": fn, "index": w.tstr(fn, idx)})
-    ctx.floor("Z5", 3, "stop-vector editors")
+    setter = setter or sem_roles.get("set")
+    unsetter = unsetter or sem_roles.get("unset")
+    if sem_ok and setter and unsetter:
+        ctx.ok("Z5", "roles", {"set": setter, "unset": unsetter})
+    ctx.floor("Z5", 2, "stop-vector editors")
 
     # ---- Z6 / Z7 --------------------------------------------------------------------------------------------------
     ctx.rule("Z6", "a stop is set only at 0 < col < cols; moving by tab falls back to the last / first column; counts default to 1")
